@@ -13,6 +13,9 @@ def sh(cmd, cwd=None, env=ENV, timeout=1800):
     return p.returncode, '\n'.join(l for l in (p.stdout + p.stderr).splitlines() if 'conda.cli.condarc' not in l)
 
 def main():
+    own_only = '--own' in sys.argv
+    if own_only:
+        sys.argv.remove('--own')
     seeds = sys.argv[1:] or sorted(os.path.basename(d) for d in glob.glob('/verif/seeded/C*'))
     man = json.load(open('/verif/MANIFEST.json'))
     props = [c['property_id'] for c in man['checks']]
@@ -47,7 +50,7 @@ def main():
             relevant = []
             for p in props:
                 pk = set(json.load(open(f'{home}/props/{p}.json')).get('packages', []))
-                if pk & touched or p == s.split('-')[0]:
+                if (pk & touched and not own_only) or p == s.split('-')[0]:
                     relevant.append(p)
             def run(p):
                 scratch = tempfile.mkdtemp(prefix='sweepout-', dir='/tmp')
@@ -65,10 +68,18 @@ def main():
                         caught[p] = v[i:i + 220] if i >= 0 else v[:220]
                     elif rc not in (0, 1):
                         caught.setdefault('_errors', {})[p] = rc
-            meta['caught_by'] = {k: v for k, v in caught.items() if k != '_errors'}
+            new = {k: v for k, v in caught.items() if k != '_errors'}
+            if own_only:
+                # keep what an earlier full sweep recorded for the other properties, refresh the own entry
+                old = dict(meta.get('caught_by', {}))
+                old.pop(s.split('-')[0], None)
+                old.update(new)
+                new = old
+            meta['caught_by'] = new
+            meta['caught_by_check'] = s.split('-')[0] in new
             if '_errors' in caught:
                 meta['sweep_check_errors'] = caught['_errors']
-            meta['swept_against'] = relevant
+            meta['swept_against'] = sorted(set(meta.get('swept_against', [])) | set(relevant)) if own_only else relevant
             json.dump(meta, open(d + '/meta.json', 'w'), indent=1)
             print(s, 'caught by', sorted(meta['caught_by']) or 'NONE', flush=True)
     finally:
